@@ -63,58 +63,95 @@ def run(prog, rep):
         return ms
     cnt = cl.calls(name='H5Fget_obj_count')
     ids = cl.calls(name='H5Fget_obj_ids')
-    rule.check(len(cnt) == 1 and need <= mask_of(cnt[0].c[1]), 'close|count-mask', rep.where(cnt[0] if cnt else cl), cl.q,
-               'H5Fget_obj_count asks for groups, datasets and datatypes', 'H5Fget_obj_count mask lacks one of %s' % sorted(need))
-    rule.check(len(ids) == 1 and need <= mask_of(ids[0].c[1]), 'close|ids-mask', rep.where(ids[0] if ids else cl), cl.q,
-               'H5Fget_obj_ids asks for groups, datasets and datatypes', 'H5Fget_obj_ids mask lacks one of %s' % sorted(need))
-    # (3) loop over the returned ids closing each H5Iget_ref(obj) times
+    if not ids:
+        raise AnalysisBroken('anchor vanished: FileHDF5::close no longer enumerates open objects with H5Fget_obj_ids')
+    for c in cnt:
+        rule.check(need <= mask_of(c.c[1]), 'close|count-mask', rep.where(c), cl.q,
+                   'H5Fget_obj_count asks for groups, datasets and datatypes', 'H5Fget_obj_count mask lacks one of %s' % sorted(need))
+    for c in ids:
+        rule.check(need <= mask_of(c.c[1]), 'close|ids-mask', rep.where(c), cl.q,
+                   'H5Fget_obj_ids asks for groups, datasets and datatypes', 'H5Fget_obj_ids mask lacks one of %s' % sorted(need))
+    # (3) every open object id is obtained and closed H5Iget_ref(id) times
+    from ..sem import Flow
+    fl = Flow(sem, cl)
     okloop = False
-    detail = 'no loop over the object ids that closes each id ref-count times'
+    detail = 'no loop that closes each enumerated id ref-count times'
     if ids:
-        buf = term(unwrap(ids[0].c[3]))  # objs.data()
-        container = buf[2] if buf[0] == 'm' and buf[1] == 'data' else buf
-        for loop in [n for n in cl.body.walk() if n.k == 'rangefor']:
-            rng = loop.c[1]
-            src = None
-            for y in rng.walk() if rng is not None else []:
-                if y.k == 'ref' and term(y) == container:
-                    src = y
-            if src is None:
+        args = real_args(ids[0])
+        cap = fl.origins(args[2])
+        cap_from_count = any(o[0] == 'call' and o[1] == 'H5Fget_obj_count' for o in cap)
+        # alternative: a loop that repeats the query until nothing is returned
+        requery = False
+        for anc in ids[0].ancestors():
+            if anc.k in ('while', 'do', 'for'):
+                cnd = anc.c[0] if anc.k == 'while' else (anc.c[1] if anc.k in ('do', 'for') else None)
+                if cnd is not None:
+                    names = fl.call_names(cnd)
+                    ct = repr(term(cnd))
+                    if 'H5Fget_obj_ids' in names and ("('k', 0)" in ct):
+                        requery = True
+        if not (cap_from_count or requery):
+            detail = ('the id list handed to H5Fget_obj_ids has room for %s ids, which is not derived from H5Fget_obj_count and the query is not '
+                      'repeated until it returns nothing: objects beyond that number stay open and keep the file open' % args[2].src())
+        bufn = unwrap(args[3])
+        while bufn is not None and bufn.k in ('call', 'cast', 'unop') and bufn.c:
+            bufn = unwrap(bufn.c[0])
+        buflid = bufn.decl.get('lid') if bufn is not None and bufn.k == 'ref' else None
+        refc = [y for y in cl.body.walk() if y.k == 'call' and (y.callee or {}).get('name') == 'H5Iget_ref']
+        for rc in refc:
+            e = term(rc.c[0])
+            src = fl.origins(rc.c[0])
+            from_buf = any(r.k == 'ref' and r.decl.get('lid') == buflid for r in rc.c[0].walk()) or _derives_from_lid(fl, rc.c[0], buflid)
+            if not from_buf:
                 continue
-            loopvar = [y for y in loop.c[6].walk() if y.k == 'var'] if loop.c[6] is not None else []
-            if not loopvar:
+            # the enclosing loop that produces e
+            outer = None
+            for anc in rc.ancestors():
+                if anc.k in ('rangefor', 'for', 'while'):
+                    outer = anc
+                    break
+            if outer is None:
                 continue
-            lv = ('v', loopvar[0].get('lid'), loopvar[0].get('name'))
-            refc = [y for y in loop.c[7].walk() if y.k == 'call' and (y.callee or {}).get('name') == 'H5Iget_ref' and term(y.c[0]) == lv]
-            inner = [y for y in loop.c[7].walk() if y.k == 'for']
-            for inn in inner:
-                closes = [y for y in inn.c[3].walk() if y.k == 'call' and (y.callee or {}).get('name') in ('H5Oclose', 'H5Idec_ref') and term(y.c[0]) == lv]
+            body = outer.c[7] if outer.k == 'rangefor' else (outer.c[3] if outer.k == 'for' else outer.c[1])
+            if outer.k == 'for':
+                # indexed loop: from 0, strictly below a bound that derives from the number of ids
+                iv = [y for y in outer.c[0].walk() if y.k == 'var'] if outer.c[0] is not None else []
+                ocond = unwrap(outer.c[1]) if outer.c[1] is not None else None
+                okidx = bool(iv) and iv[0].c and iv[0].c[0] is not None and term(iv[0].c[0]) == ('k', 0) and ocond is not None and ocond.k == 'binop' and ocond.get('op') == '<'
+                if okidx:
+                    bnames = fl.call_names(ocond.c[1])
+                    okidx = bool(bnames & {'H5Fget_obj_ids', 'H5Fget_obj_count', 'size'})
+                if not okidx:
+                    detail = 'the loop over the id list does not run from 0 to the number of ids'
+                    continue
+            rcvar = None
+            for y in body.walk():
+                if y.k == 'var' and y.c and y.c[0] is not None and unwrap(y.c[0]) is rc:
+                    rcvar = ('v', y.get('lid'), y.get('name'))
+            for inn in [y for y in body.walk() if y.k == 'for']:
+                closes = [y for y in inn.c[3].walk() if y.k == 'call' and (y.callee or {}).get('name') in ('H5Oclose', 'H5Idec_ref') and term(y.c[0]) == e]
                 cond = unwrap(inn.c[1]) if inn.c[1] is not None else None
                 init = [y for y in inn.c[0].walk() if y.k == 'var'] if inn.c[0] is not None else []
-                if not (closes and cond is not None and init and refc):
+                if not (closes and cond is not None and init):
                     continue
                 iv = ('v', init[0].get('lid'), init[0].get('name'))
                 start = term(init[0].c[0]) if init[0].c and init[0].c[0] is not None else None
                 ct = term(cond)
-                # bound: j < ref_count with j from 0 (or j <= ref_count - 1 ...): normalise the two common spellings
-                rcvar = None
-                for y in loop.c[7].walk():
-                    if y.k == 'var' and y.c and y.c[0] is not None and unwrap(y.c[0]) is refc[0]:
-                        rcvar = ('v', y.get('lid'), y.get('name'))
-                bound_ok = start == ('k', 0) and ct[0] == 'b' and ct[1] == '<' and ct[2] == iv and (ct[3] == rcvar or ct[3] == term(refc[0]))
+                bound_ok = start == ('k', 0) and ct[0] == 'b' and ct[1] == '<' and ct[2] == iv and (ct[3] == rcvar or ct[3] == term(rc))
                 bound_ok = bound_ok or (start == ('k', 1) and ct[0] == 'b' and ct[1] == '<=' and ct[2] == iv and (ct[3] == rcvar))
                 inc = unwrap(inn.c[2]) if inn.c[2] is not None else None
                 inc_ok = inc is not None and inc.k == 'unop' and inc.get('op') == '++' and term(inc.c[0]) == iv
                 if bound_ok and inc_ok:
-                    okloop = True
+                    if cap_from_count or requery:
+                        okloop = True
                 else:
                     detail = 'inner close loop does not run exactly H5Iget_ref(obj) times: init %s, cond %s' % (start, cond.src())
-    rule.check(okloop, 'close|refcount-loop', rep.where(cl), cl.q, 'every enumerated id is closed H5Iget_ref(id) times', detail)
+    rule.check(okloop, 'close|refcount-loop', rep.where(ids[0] if ids else cl), cl.q, 'every open object id is obtained and closed H5Iget_ref(id) times', detail)
     # (4) the file id itself is closed last, on every path from a valid id
     fin = [x for x in body_calls if x.callee.get('q') == 'nix::hdf5::H5Object::close' and (not x.c or unwrap(x.c[0]).k == 'this')]
     okfin = False
-    if fin and cnt:
-        a = listed(cl, cnt[0])
+    if fin:
+        a = listed(cl, (cnt or ids)[0])
         b = listed(cl, fin[0])
         okfin = a is not None and b is not None and throw_free_postdom(cl, a.id, b.id)
         # and nothing touches the ids after it
@@ -159,3 +196,30 @@ def run(prog, rep):
     rule.check(okb, 'ImplContainer::backend|throws', rep.where(bk[0]) if bk else 'include/nix/base/ImplContainer.hpp:0', 'nix::base::ImplContainer::backend',
                'backend() throws UninitializedEntity when the implementation pointer is empty')
     return rule
+
+
+def _derives_from_lid(fl, node, lid):
+    """the expression is (transitively) computed from the local with this id (e.g. a range-for variable over it)"""
+    if lid is None:
+        return False
+    seen = set()
+    st = [node]
+    while st:
+        n = st.pop()
+        for r in n.walk():
+            if r.k == 'ref' and r.decl.get('kind') in ('local', 'param'):
+                l = r.decl.get('lid')
+                if l == lid:
+                    return True
+                if l in seen:
+                    continue
+                seen.add(l)
+                for d in fl.defs.get(l, []):
+                    if d[0] in ('expr', 'elem'):
+                        st.append(d[1])
+                # range-for variable: defined by the loop's range
+                for x in fl.fn.walk():
+                    if x.k == 'rangefor' and x.c[6] is not None and any(v.k == 'var' and v.get('lid') == l for v in x.c[6].walk()):
+                        if x.c[1] is not None:
+                            st.append(x.c[1])
+    return False
